@@ -336,6 +336,13 @@ pub fn deepgen(shape: &str, depth: usize, path: &str) {
                     CN::comp(&v, &n).unwrap()
                 }
                 // deep DAG with flat types
+                // a witness paired with itself again and again: the target type is shared to depth `depth`
+                "share" => {
+                    use simplicity::node::WitnessConstructible;
+                    let mut p: CN = WitnessConstructible::witness(&ctx, None);
+                    for _ in 0..depth { p = CN::pair(&p, &p).unwrap(); }
+                    p
+                }
                 _ => { let i = CN::iden(&ctx); let mut c = i.clone(); for _ in 0..depth { c = CN::comp(&c, &i).unwrap(); } CN::comp(&c, &u).unwrap() }
             };
             let c = prog.finalize_types().expect("types");
@@ -369,10 +376,18 @@ pub fn deepbuild(shape: &str, depth: usize, on_thread: bool) {
                     for _ in 0..depth { v = CN::pair(&v, &u2).unwrap(); }
                     CN::comp(&v, &n).unwrap()
                 }
+                // a witness paired with itself again and again: the target type is shared to depth `depth`
+                "share" => {
+                    use simplicity::node::WitnessConstructible;
+                    let mut p: CN = WitnessConstructible::witness(&ctx, None);
+                    for _ in 0..depth { p = CN::pair(&p, &p).unwrap(); }
+                    p
+                }
                 _ => { let i = CN::iden(&ctx); let mut c = i.clone(); for _ in 0..depth { c = CN::comp(&c, &i).unwrap(); } CN::comp(&c, &u).unwrap() }
             };
-            let c = if shape == "take" { prog.finalize_types_non_program() } else { prog.finalize_types() }.expect("types");
-            c.to_vec_without_witness().len()
+            let c = if shape == "take" || shape == "share" { prog.finalize_types_non_program() } else { prog.finalize_types() }.expect("types");
+            // (the commitment-time encoding writes a shared witness once per path: not for the doubling shape)
+            if shape == "share" { (c.arrow().target.bit_width() > 0) as usize } else { c.to_vec_without_witness().len() }
         });
         println!("{}", json!({"class": "ok", "bytes": n_bytes}));
     };
@@ -384,7 +399,9 @@ pub fn deepbuild(shape: &str, depth: usize, on_thread: bool) {
 pub fn deepdec(path: &str, on_thread: bool) {
     let bytes = std::fs::read(path).unwrap();
     let work = move || {
+        let base = crate::alloc::reset_peak();
         let r = RedeemNode::decode::<_, _, simplicity::jet::Core>(BitIter::from(&bytes[..]), BitIter::from(&[][..]));
+        let peak = crate::alloc::peak_since(base);
         let class = match &r {
             Ok(p) => {
                 let shown = p.arrow().to_string().len() + p.left_child().map_or(0, |c| c.arrow().to_string().len());
@@ -394,7 +411,7 @@ pub fn deepdec(path: &str, on_thread: bool) {
             Err(e) => format!("error {}", e.to_string().len() > 0),
         };
         drop(r);
-        println!("{}", json!({"class": class, "bytes": bytes.len()}));
+        println!("{}", json!({"class": class, "bytes": bytes.len(), "peak": peak}));
     };
     if on_thread { std::thread::spawn(work).join().unwrap(); } else { work(); }
 }
